@@ -15,7 +15,7 @@ RULE = ('symbols with automatic mask (random contents over versions weighted to 
 ASSUMPTIONS = common.ASSUME_QR + ['reading fixed in DESIGN 4.1: the dark module counts as light while masks are scored']
 REQUIRED = ['evaluations', 'encode_observed', 'symbols_decoded', 'auto_mask_checked', 'auto_mask_checked_micro',
             'requested_mask_checked']
-TIMEOUT = {'quick': 900, 'thorough': 7200}
+TIMEOUT = {'quick': 3600, 'thorough': 21600}
 
 
 def gen_cases(tier, seed):
